@@ -2,7 +2,7 @@
 from checks_common import three
 
 CHECK = {
-    "runs": three("c05_anyflow", [], scales=(0.6, 0.4, 1.6)),
+    "runs": [dict(r, scale_quick=round(r["scale"] * 3, 3)) for r in three("c05_anyflow", [], scales=(0.6, 0.4, 1.6))],
     "design_ref": "DESIGN.md §5 C05",
     "technique": "random DAG generator + sequential demand-driven reference interpreter; per-vertex run counters, "
                  "in-process dependency assertions, committer counters, wait() in-flight counter; hostile executors "
